@@ -31,6 +31,8 @@ import MpcVerif.Proofs.BuildersKS
 import MpcVerif.Proofs.BuildersMul
 import MpcVerif.Proofs.BuildersDiv
 import MpcVerif.Proofs.BuildersKara
+import MpcVerif.Proofs.BuildersWallace
+import MpcVerif.Proofs.BuildersHammingG
 
 namespace Mpc
 open Mpc.Bld
@@ -455,20 +457,21 @@ example : evalBuilder (newIndex 2) true [true, false, false, true, true, true] [
 
 /-! ## Hamming distance -/
 
-/-- `Hamming` on the Yao target for every operand width ≥ 1 (the 1-bit case
-since fix b8285b2) and every result width: the result is the number of bit
-positions in which the (zero padded) operands differ, modulo `2^nz`. -/
-theorem C07_hamming (pro : Bool) (x y : List Bool) (nz : Nat)
+/-- `Hamming` on either target (adder tree of `NewAdder`: ripple carry or
+Kogge-Stone) for every operand width ≥ 1 (the 1-bit case since fix b8285b2) and
+every result width: the result is the number of bit positions in which the
+(zero padded) operands differ, modulo `2^nz`. -/
+theorem C07_hamming (gmw pro : Bool) (x y : List Bool) (nz : Nat)
     (hw : 1 ≤ max x.length y.length) (hnz : 0 < nz) :
-    (evalBuilder (fun a b => hamming false a b nz) pro x y).length = nz ∧
-    toNat (evalBuilder (fun a b => hamming false a b nz) pro x y) =
+    (evalBuilder (fun a b => hamming gmw a b nz) pro x y).length = nz ∧
+    toNat (evalBuilder (fun a b => hamming gmw a b nz) pro x y) =
       popDiff ((padTo x (max x.length y.length)).zip (padTo y (max x.length y.length))) % 2 ^ nz := by
   refine evalBuilder_spec (R := fun z => z.length = nz ∧ toNat z =
     popDiff ((padTo x (max x.length y.length)).zip (padTo y (max x.length y.length))) % 2 ^ nz) ?_ pro (by omega)
   intro s inp xw yw hwf hx hy hxv hyv
   have hlx : xw.length = x.length := by rw [← hxv]; simp
   have hly : yw.length = y.length := by rw [← hyv]; simp
-  refine (hamming_spec hwf nz hx hy (by omega) hnz).mono ?_
+  refine (hammingG_spec hwf gmw nz hx hy (by omega) hnz).mono ?_
   intro z s' _ ⟨hb, hl, hv⟩
   exact ⟨hb, by simpa using hl, by rw [hv, hxv, hyv, hlx, hly]⟩
 
@@ -550,6 +553,45 @@ theorem C07_mul_yao (pro : Bool) (x y : List Bool) (nz : Nat)
 example : toNat (evalBuilder (fun a b => do
     let r ← karatsuba false 3 (2 * max a.length b.length + 8) a b 10
     pure (r.getD [])) true (ofNat 5 27) (ofNat 5 19)) = 513 := by decide +kernel
+
+/-! ## Wallace-tree multiplier (GMW target of NewMultiplier) -/
+
+/-- `NewWallaceMultiplier`: exact for all operand and result widths,
+`(x · y) mod 2^nz`.  Proof: the weighted column sum `Σ_i 2^i·|column_i|` equals
+`x·y` after the partial products, is preserved modulo `2^(2nz)` by every 3:2 /
+2:2 compression round (`wlRound_spec`), the column height shrinks every round
+until it is at most 2 (`wlLoop_spec`), and the two remaining rows are added by
+the Kogge-Stone adder (`C07_ksAdder`). -/
+theorem C07_wallace (pro : Bool) (x y : List Bool) (nz : Nat)
+    (hw : 0 < x.length + y.length) (hnz : 0 < nz) :
+    (evalBuilder (fun a b => wallace a b nz) pro x y).length = nz ∧
+    toNat (evalBuilder (fun a b => wallace a b nz) pro x y) = (toNat x * toNat y) % 2 ^ nz := by
+  refine evalBuilder_spec (R := fun z => z.length = nz ∧ toNat z = (toNat x * toNat y) % 2 ^ nz) ?_ pro hw
+  intro s inp xw yw hwf hx hy hxv hyv
+  refine (wallace_spec hwf nz hx hy hnz).mono ?_
+  intro z s' _ ⟨hb, hl, hv⟩
+  exact ⟨hb, by simpa using hl, by rw [hv, hxv, hyv]⟩
+
+/-- `NewMultiplier` on the GMW target (= `NewWallaceMultiplier`). -/
+theorem C07_mul_gmw (pro : Bool) (x y : List Bool) (nz : Nat)
+    (hw : 0 < x.length + y.length) (hnz : 0 < nz) :
+    toNat (evalBuilder (fun a b => do let r ← newMultiplier true a b nz; pure (r.getD [])) pro x y) =
+      (toNat x * toNat y) % 2 ^ nz := by
+  refine evalBuilder_spec (R := fun z => toNat z = (toNat x * toNat y) % 2 ^ nz) ?_ pro hw
+  intro s inp xw yw hwf hx hy hxv hyv
+  unfold newMultiplier
+  simp only [if_true]
+  have h1 : Spec inp s (do let r ← wallace xw yw nz; pure (some r))
+      (fun z s' => ∃ r, z = some r ∧ Bnd s' r ∧
+        toNat (busVal s' inp r) = (toNat (busVal s inp xw) * toNat (busVal s inp yw)) % 2 ^ nz) :=
+    (wallace_spec hwf nz hx hy hnz).map (fun z s' _ ⟨hb, _, hv⟩ => ⟨z, rfl, hb, hv⟩)
+  refine h1.map ?_
+  intro z s' _ ⟨r, hz, hb, hv⟩
+  subst hz
+  exact ⟨hb, by rw [Option.getD_some, hv, hxv, hyv]⟩
+
+example : toNat (evalBuilder (fun a b => wallace a b 8) true (ofNat 4 13) (ofNat 4 11)) = 143 := by
+  decide +kernel
 
 /-! ## Long division (Yao target of NewUDivider / NewIDivider) -/
 
@@ -657,5 +699,19 @@ example : toNat (evalBuilder (fun a b => do let d ← iDivider false a b 8 0; pu
     (ofNat 8 214) (ofNat 8 4)) = 246 := by decide +kernel
 example : toNat (evalBuilder (fun a b => do let d ← iDivider false a b 0 8; pure d.2) true
     (ofNat 8 214) (ofNat 8 4)) = 2 := by decide +kernel
+
+/-! ## What is NOT proved in this file
+
+* `NewUDividerGoldschmidtFast` (GMW target of `NewUDivider` / `NewIDivider`): no
+  Lean generator; it is not exact (known finding C07-goldschmidt-inexact),
+  validated by the oracle and the Lean evaluator on compiled circuits only.
+* `NewUDividerRestoring`, `NewUDividerArray` (not dispatched by the compiler):
+  oracle only.
+* Quotient / remainder buses wider than the operands of the long divider
+  (left unconnected by the Go code) and the signed builders on unequal operand
+  widths (zero extension, known findings).
+* `Compiler.Compile` (wire numbering, BFS order, GMW level sort) and the
+  optimisation passes: validated by evaluation.
+-/
 
 end Mpc
